@@ -365,6 +365,8 @@ fn c04_ws_client(case: &Case) {
 #[derive(Clone, Copy, Debug, PartialEq)]
 enum Kill {
     CloseFrame,
+    /// a Close frame after which the peer does *not* close the socket
+    CloseFrameHeld,
     Fin,
     Reset,
     Text,
@@ -417,9 +419,13 @@ fn c06_ws_client(case: &Case) {
     }
 }
 
+/// How long a peer that has sent something fatal keeps the socket open afterwards.
+const HOLD_MS: u64 = 600_000;
+
 fn c06_fault(case: &Case) {
     let n_inflight = pick(&[0u32, 1, 1, 2, 3, 4, 8, 16]);
-    let kill = match simkernel::choose(10) {
+    let kill = match simkernel::choose(11) {
+        10 => Kill::CloseFrameHeld,
         0 | 1 => Kill::CloseFrame,
         2 => Kill::Fin,
         3 | 4 => Kill::Reset,
@@ -433,8 +439,11 @@ fn c06_fault(case: &Case) {
     let call_timeout = Duration::from_millis(pick(&[50u64, 200, 1000]));
     let pre_kill_us = pick(&[0u64, 100, 5_000]);
     let subscribe = coin();
+    // the fatal message arrives from a peer that has stopped reading while a caller with a
+    // large request is parked in its send: the calls in flight must fail all the same
+    let peer_stops_reading = matches!(kill, Kill::Text | Kill::BadRepe(_) | Kill::WsGarbage | Kill::CloseFrameHeld) && simkernel::choose(3) == 0;
     case.sample(json!({"scenario": "connection-fault", "in_flight": n_inflight, "kill": format!("{kill:?}"), "server_reads": read_first,
-        "server_answers": answer_first, "per_call_timeouts": with_timeouts, "subscriber": subscribe}));
+        "server_answers": answer_first, "per_call_timeouts": with_timeouts, "subscriber": subscribe, "peer_stops_reading": peer_stops_reading}));
     let case = case.clone();
     aio::run(&case.clone(), 3_600, async move {
         let listener = TcpListener::bind("127.0.0.1:0").await.unwrap();
@@ -461,7 +470,15 @@ fn c06_fault(case: &Case) {
                 }
             }
             // the peer keeps draining what the client writes (peer stalls are C05's quantifier)
+            if peer_stops_reading {
+                net::set_capacity(&conn, Side::A, 2048);
+            }
             let drainer = tokio::spawn(async move {
+                if peer_stops_reading {
+                    let _keep_open = stream;
+                    sleep_ms(700_000).await;
+                    return;
+                }
                 loop {
                     match timeout(Duration::from_millis(500), stream.next()).await {
                         Ok(Some(Ok(_))) => {}
@@ -476,6 +493,12 @@ fn c06_fault(case: &Case) {
                     srv_case.probe("fault.close_frame");
                     let _ = timeout(Duration::from_secs(2), sink.close()).await;
                 }
+                Kill::CloseFrameHeld => {
+                    // a Close frame, and then the peer keeps the TCP connection open
+                    srv_case.probe("fault.close_frame_socket_held_open");
+                    net::inject_bytes(&conn, Side::B, &[0x88, 0x00]);
+                    sleep_ms(HOLD_MS).await;
+                }
                 Kill::Fin => {
                     srv_case.probe("fault.close_fin");
                     net::close_side(&conn, Side::B);
@@ -484,18 +507,18 @@ fn c06_fault(case: &Case) {
                 Kill::Text => {
                     srv_case.probe("fault.text_message");
                     let _ = sink.send(WsMessage::Text("not binary".into())).await;
-                    sleep_ms(2_000).await;
+                    sleep_ms(HOLD_MS).await;
                 }
                 Kill::BadRepe(k) => {
                     srv_case.probe("fault.malformed_repe_frame");
                     let _ = sink.send(WsMessage::Binary(bad_repe(k, id))).await;
                     // keep the socket open: the client must fail on the bytes alone
-                    sleep_ms(2_000).await;
+                    sleep_ms(HOLD_MS).await;
                 }
                 Kill::WsGarbage => {
                     srv_case.probe("fault.ws_protocol_violation");
                     net::inject_bytes(&conn, Side::B, &[0x8b, 0x05, 1, 2, 3, 4, 5]);
-                    sleep_ms(2_000).await;
+                    sleep_ms(HOLD_MS).await;
                 }
             }
             let _ = drainer.await;
@@ -522,20 +545,37 @@ fn c06_fault(case: &Case) {
             let to = if with_timeouts && t % 2 == 0 { Some(call_timeout) } else { None };
             hs.push(tokio::spawn(async move { (t, do_call(&c, CallKind::Json, t, to).await) }));
         }
+        if peer_stops_reading {
+            let c = client.clone();
+            hs.push(tokio::spawn(async move { (99, do_call(&c, CallKind::Raw(40_000), 99, None).await) }));
+            case.probe("writer_parked_when_fatal_message_arrived");
+        }
         let mut oks = 0u32;
         for h in hs {
-            match h.await {
-                Ok((t, Err(e))) if e.starts_with("WRONG-RESPONSE") => case.fail("wrong-response", format!("call {t}: {e}")),
-                Ok((_, Ok(()))) => oks += 1,
-                Ok(_) => {}
-                Err(e) => case.fail("panic", format!("caller task failed: {e}")),
+            // (the peer may hold the dead connection's socket open for ten minutes: the calls
+            // must fail on what was received, not when the socket finally closes)
+            match timeout(Duration::from_secs(120), h).await {
+                Err(_) => {
+                    case.fail("hang", format!("a call in flight when the connection failed ({kill:?}) had not returned two minutes later"));
+                    return;
+                }
+                Ok(Ok((t, Err(e)))) if e.starts_with("WRONG-RESPONSE") => case.fail("wrong-response", format!("call {t}: {e}")),
+                Ok(Ok((_, Ok(())))) => oks += 1,
+                Ok(Ok(_)) => {}
+                Ok(Err(e)) => case.fail("panic", format!("caller task failed: {e}")),
             }
         }
         case.check(oks <= answer_first, "ok-without-response", || format!("{oks} calls returned Ok but the server answered only {answer_first}"));
         sleep_ms(3_000).await;
-        let later = do_call(&client, CallKind::Json, 1000, if coin() { Some(call_timeout) } else { None }).await;
+        let Ok(later) = timeout(Duration::from_secs(120), do_call(&client, CallKind::Json, 1000, if coin() { Some(call_timeout) } else { None })).await else {
+            case.fail("hang", format!("a call made after the connection failed ({kill:?}) had not returned two minutes later"));
+            return;
+        };
         case.check(later.is_err(), "call-on-dead-connection-succeeded", || "a call after the connection failed returned Ok".into());
-        let later2 = do_call(&client, CallKind::Empty, 1001, None).await;
+        let Ok(later2) = timeout(Duration::from_secs(120), do_call(&client, CallKind::Empty, 1001, None)).await else {
+            case.fail("hang", format!("a second call made after the connection failed ({kill:?}) had not returned two minutes later"));
+            return;
+        };
         case.check(later2.is_err(), "call-on-dead-connection-succeeded", || "a second call after the connection failed returned Ok".into());
         case.check(client.verif_pending_len() == 0, "pending-residue", || format!("{} pending entries left after the connection failed", client.verif_pending_len()));
         // the notification subscriber sees end-of-stream
